@@ -46,10 +46,12 @@ template<class Graph> struct MpiRun {
         return realised == want;
     }
 
-    static void run(const InGraph &in, const std::string &algo, const char *wt, int P, const std::string &layout, unsigned long seed, int reduce_policy, std::size_t node_size) {
+    static void run(const InGraph &in, const std::string &algo, const char *wt, int P, const std::string &layout, unsigned long seed, int reduce_policy, std::size_t node_size,
+                    const std::vector<std::vector<std::size_t>> *explicit_perms = nullptr) {
         size_t m = in.edges.size();
         std::vector<std::vector<std::size_t>> perms((size_t) P, std::vector<std::size_t>(m));
-        for (int r = 0; r < P; r++) {
+        if (explicit_perms) perms = *explicit_perms;
+        else for (int r = 0; r < P; r++) {
             for (size_t i = 0; i < m; i++) perms[(size_t) r][i] = i;
             unsigned long s = seed * 2654435761UL + (layout == "same" ? 0UL : (unsigned long) (r + 1) * 97UL) + 1;
             auto rnd = [&s]() { s ^= s << 13; s ^= s >> 7; s ^= s << 17; return s; };
@@ -114,6 +116,23 @@ int main(int argc, char **argv) {
         g_current_item = (long) i; set_crash_context(graphs[i].raw);
         const InGraph &g = graphs[i];
         for (auto &a : algos) for (auto &pz : ps) for (auto &lay : layouts) {
+            if (lay == "allpairs" || lay == "allsecond") {
+                // every pair of address orders for two ranks (allpairs) / rank 0 fixed, every order on rank 1 (allsecond)
+                size_t m = g.edges.size();
+                if (atoi(pz.c_str()) != 2 || m > 5 || m < 2) continue;
+                std::vector<std::size_t> p0(m), p1(m);
+                for (size_t q = 0; q < m; q++) p0[q] = q;
+                do {
+                    for (size_t q = 0; q < m; q++) p1[q] = q;
+                    do {
+                        std::vector<std::vector<std::size_t>> pp = {p0, p1};
+                        alarm(120);
+                        MpiRun<GraphD>::run(g, a, "double", 2, lay, 1, 0, ns, &pp);
+                        alarm(0);
+                    } while (std::next_permutation(p1.begin(), p1.end()));
+                } while (lay == "allpairs" && std::next_permutation(p0.begin(), p0.end()));
+                continue;
+            }
             int reps = (lay == "identity" || lay == "reversed_odd") ? 1 : nseeds;
             for (int s = 0; s < reps; s++) {
                 alarm(120);
